@@ -170,7 +170,7 @@ def gen_ints(rng, n, limit=2 ** 31):
 
 
 def gen_floats(rng, n, dtype):
-    scale = float(10 ** rng.uniform(-6, 6))
+    scale = float(10 ** rng.uniform(-13, 6))
     return [(rng.standard_normal(n) * scale).astype(dtype) for _ in range(3)]
 
 
@@ -522,7 +522,7 @@ def build_peer(ctx, rng, d, n, tag="peer"):
     unequal = rng.random() < 0.3
     ns_ = {c: (n + int(rng.integers(0, 8)) if unequal else n) for c in COMPS}
     keep = min(ns_.values())
-    scale = float(10 ** rng.uniform(-6, 3))
+    scale = float(10 ** rng.uniform(-13, 3))      # any physical unit: ambient noise in g or in m is ~1e-9 and below
     paths, vals = {}, {}
     for c in COMPS:
         v = rng.standard_normal(ns_[c]) * scale
